@@ -25,6 +25,7 @@ where
     fn parse(&mut self, input: &mut I) -> Result<Self::Output, Self::Error> {
         match self.parser.parse(input) {
             Ok(value) => Ok(value),
+            Err(err) if err.is_soft() => Err(err),
             Err(_) => Err(self.err.clone()),
         }
     }
